@@ -1,9 +1,296 @@
-/- Driver operations for C15 (stub: to be filled by the property's model). -/
+/-
+Driver operations for C15: the Tearfree model (`Model/Tearfree.lean`) executed at `Float` (binary64) and, for the
+first-order chain, at exact `Rat`. Mathlib-free.
+
+External kernels of the model and what the driver supplies for them:
+  * `eigh`  — a cyclic Jacobi iteration (`jacobiEigh`); every output is checked against the specification the theorems
+              assume (`VᵀV = 1`, `V diag(w) Vᵀ = C`, relative residual ≤ 1e-9) before it is used; a factorisation that fails the
+              check is replaced by NaNs, so the failure is visible in the reply instead of silently entering the result;
+  * `svd`   — left singular vectors / singular values from the Jacobi `eigh` of `B Bᵀ` (same check), descending;
+  * `sqrt`  — `Float.sqrt`;  `hp p x = x ** (-0.5/p)`, `pw n x = x ** (-1/(2n))` — `Float.pow`.
+
+Ops
+  tf_run    one leaf: `tearfreeTx (graftTx … (secondOrderTx …)) momentum lr` folded over a history; also returns the output
+            of the second-order stage alone, the derived shapes, the mask and the exponent
+  shapes    `deriveShapes`, `tfMaskSkipped`, `blocksMetadata`, `shampooExponent` (EXACT observables)
+  eigh      the Jacobi kernel on a given symmetric matrix, with its specification residual, and `rootOfEigh` of it
+  mom_run   `chain2 (momentumTx o) (lrTx lr)` at exact rationals (EXACT-DYADIC comparison with the optax chain)
+-/
 import PrecondVerif.Kit.Proto
+import PrecondVerif.Model.Tearfree
 
 namespace PrecondVerif.Drv.C15
-open Lean PrecondVerif.Proto
+open Lean PrecondVerif.Proto PrecondVerif.Shapes PrecondVerif.Tearfree
 
-def ops : List Op := []
+instance : Zero Float := ⟨0.0⟩
+instance : One Float := ⟨1.0⟩
+
+/-! ### Jacobi eigh -/
+
+def fabs (x : Float) : Float := if x < 0.0 then -x else x
+def fmax (a b : Float) : Float := if a < b then b else a
+def nan : Float := 0.0 / 0.0
+
+/-- one cyclic sweep of Jacobi rotations on the symmetric `n × n` matrix `A` (row-major), accumulating `V ← V J` -/
+def jacobiSweep (n : Nat) (A V : Array Float) : Array Float × Array Float := Id.run do
+  let mut A := A
+  let mut V := V
+  for p in [0:n] do
+    for q in [p+1:n] do
+      let apq := A.getD (p * n + q) 0.0
+      if apq != 0.0 then
+        let app := A.getD (p * n + p) 0.0
+        let aqq := A.getD (q * n + q) 0.0
+        let theta := (aqq - app) / (2.0 * apq)
+        let t := (if theta < 0.0 then -1.0 else 1.0) / (fabs theta + Float.sqrt (theta * theta + 1.0))
+        let c := 1.0 / Float.sqrt (t * t + 1.0)
+        let s := t * c
+        for k in [0:n] do
+          let akp := A.getD (k * n + p) 0.0
+          let akq := A.getD (k * n + q) 0.0
+          A := A.setIfInBounds (k * n + p) (c * akp - s * akq)
+          A := A.setIfInBounds (k * n + q) (s * akp + c * akq)
+        for k in [0:n] do
+          let apk := A.getD (p * n + k) 0.0
+          let aqk := A.getD (q * n + k) 0.0
+          A := A.setIfInBounds (p * n + k) (c * apk - s * aqk)
+          A := A.setIfInBounds (q * n + k) (s * apk + c * aqk)
+        -- exact zero of the annihilated entry (it is zero up to rounding)
+        A := A.setIfInBounds (p * n + q) 0.0
+        A := A.setIfInBounds (q * n + p) 0.0
+        for k in [0:n] do
+          let vkp := V.getD (k * n + p) 0.0
+          let vkq := V.getD (k * n + q) 0.0
+          V := V.setIfInBounds (k * n + p) (c * vkp - s * vkq)
+          V := V.setIfInBounds (k * n + q) (s * vkp + c * vkq)
+  return (A, V)
+
+def offNorm (n : Nat) (A : Array Float) : Float := Id.run do
+  let mut off := 0.0
+  for p in [0:n] do
+    for q in [0:n] do
+      if p != q then
+        let a := A.getD (p * n + q) 0.0
+        off := off + a * a
+  return off
+
+/-- eigenvalues (ascending) and eigenvectors (columns, row-major `n × n`) of a symmetric matrix -/
+def jacobiEigh (n : Nat) (A0 : Array Float) : Array Float × Array Float := Id.run do
+  -- symmetrise (the statistics are symmetric up to summation order)
+  let mut A : Array Float := Array.ofFn (n := n * n) fun k =>
+    (A0.getD ((k.val / n) * n + k.val % n) 0.0 + A0.getD ((k.val % n) * n + k.val / n) 0.0) / 2.0
+  let mut V : Array Float := Array.ofFn (n := n * n) fun k => if k.val / n = k.val % n then 1.0 else 0.0
+  for _ in [0:60] do
+    if offNorm n A == 0.0 then break
+    let r := jacobiSweep n A V
+    A := r.1
+    V := r.2
+  let w : Array Float := Array.ofFn (n := n) fun i => A.getD (i.val * n + i.val) 0.0
+  let order := (Array.range n).qsort fun a b => w.getD a 0.0 < w.getD b 0.0
+  let ws : Array Float := order.map fun a => w.getD a 0.0
+  let Vs : Array Float := Array.ofFn (n := n * n) fun k => V.getD ((k.val / n) * n + order.getD (k.val % n) 0) 0.0
+  return (ws, Vs)
+
+/-- relative residual of the eigh specification: `max |V diag(w) Vᵀ − C| / max |C|` and `max |VᵀV − 1|` -/
+def eighResidual (n : Nat) (C w V : Array Float) : Float := Id.run do
+  let mut scale := 0.0
+  for k in [0:n*n] do
+    scale := fmax scale (fabs (C.getD k 0.0))
+  let mut r := 0.0
+  for i in [0:n] do
+    for j in [0:n] do
+      let mut acc := 0.0
+      let mut g := 0.0
+      for a in [0:n] do
+        acc := acc + V.getD (i * n + a) 0.0 * w.getD a 0.0 * V.getD (j * n + a) 0.0
+        g := g + V.getD (a * n + i) 0.0 * V.getD (a * n + j) 0.0
+      let sym := (C.getD (i * n + j) 0.0 + C.getD (j * n + i) 0.0) / 2.0
+      let e1 := fabs (acc - sym)
+      r := fmax r (if scale == 0.0 then e1 else e1 / scale)
+      r := fmax r (fabs (g - (if i = j then 1.0 else 0.0)))
+  return r
+
+def specTol : Float := 1e-9
+
+/-- the `eigh` kernel handed to the model: Jacobi, checked against its specification (NaN when the check fails) -/
+def eighK : EighFn Float := fun n M =>
+  let C := matToArr M
+  let r := jacobiEigh n C
+  let bad := !(eighResidual n C r.1 r.2 ≤ specTol)
+  let w := r.1
+  let V := r.2
+  ⟨fun a => if bad then nan else w.getD a.val 0.0, fun i a => if bad then nan else V.getD (i.val * n + a.val) 0.0⟩
+
+/-- the `svd` kernel: from the Jacobi `eigh` of `B Bᵀ` (descending singular values) -/
+def svdK : SvdFn Float := fun d n B =>
+  let Ba : Array Float := ((List.finRange d).flatMap fun i => (List.finRange n).map fun c => B i c).toArray
+  let C : Array Float := Array.ofFn (n := d * d) fun k =>
+    let i := k.val / d
+    let j := k.val % d
+    ((List.range n).map fun c => Ba.getD (i * n + c) 0.0 * Ba.getD (j * n + c) 0.0).sum
+  let r := jacobiEigh d C
+  let bad := !(eighResidual d C r.1 r.2 ≤ specTol)
+  let w := r.1
+  let V := r.2
+  { U := fun i a => if bad then nan else V.getD (i.val * d + (d - 1 - a.val)) 0.0
+    s := fun a => if bad then nan else Float.sqrt (fmax (w.getD (d - 1 - a.val) 0.0) 0.0) }
+
+def hpK (p : Nat) (x : Float) : Float := Float.pow x (-0.5 / p.toFloat)
+def pwK (n : Nat) (x : Float) : Float := Float.pow x (-1.0 / (2.0 * n.toFloat))
+
+/-! ### codecs -/
+
+def getF (j : Json) (key : String) : R Float := do asFloat (← field j key)
+def getFs (j : Json) (key : String) : R (List Float) := do asListOf asFloat (← field j key)
+def fsJson (l : List Float) : Json := listToJson floatToJson l
+
+def parseGType : String → R GType
+  | "NONE" => pure .none
+  | "SGD" => pure .sgd
+  | "RMSPROP" => pure .rmsprop
+  | "OPAQUE" => pure .opaque
+  | s => throw s!"unknown graft type {s}"
+
+structure Step where
+  g : List Float
+  x : List Float
+  ext : List Float
+
+def getSteps (j : Json) : R (List Step) := do
+  (← asList (← field j "steps")).mapM fun s => do
+    let g ← getFs s "g"
+    let x ← getFs s "x"
+    let ext ← match s.getObjVal? "ext" with
+      | .ok (.arr a) => a.toList.mapM asFloat
+      | _ => pure []
+    if g.length ≠ x.length then throw "g and x differ in length"
+    pure ⟨g, x, ext⟩
+
+def getGraft (j : Json) : R (GraftOpts Float) := do
+  let g ← field j "graft"
+  pure { type := ← parseGType (← getStr g "type"), decay := ← getF g "decay", eps := ← getF g "eps",
+         start := ← getNat g "start", rank1 := ← getBool g "rank1", anyDimGt := ← getNat g "dim_gt" }
+
+def getMom (j : Json) : R (MomOpts Float) := do
+  let m ← field j "mom"
+  pure { ema := ← getBool m "ema", nesterov := ← getBool m "nesterov", decay := ← getF m "decay",
+         wd := ← getF m "wd", after := ← getBool m "after" }
+
+def getLr (j : Json) : R (LR Float) := do
+  let l ← field j "lr"
+  match (← getStr l "kind") with
+  | "const" => pure (.const (← getF l "v"))
+  | "sched" => do
+    let tb := (← getFs l "table").toArray
+    pure (.sched fun n => tb.getD n nan)
+  | s => throw s!"unknown lr kind {s}"
+
+/-! ### the composed run -/
+
+def runWith {DS : Type} (direction : Tx DS (List Float) (List Float)) (gopts : GraftOpts Float)
+    (mom : MomOpts Float) (lr : LR Float) (shape : List Nat) (steps : List Step) :
+    List (List Float) × List (List Float) :=
+  let exts := (steps.map fun s => s.ext).toArray
+  let norm := normTx Float.sqrt gopts fun n => exts.getD n []
+  let tx := tearfreeTx (graftTx Float.sqrt gopts shape direction norm) mom lr
+  let hist := steps.map fun s => (s.g, s.x)
+  let p0 := match steps with | s :: _ => s.x | [] => []
+  let upds := (runTx tx (tx.init p0) hist).1
+  let masked := gopts.type != .none && Graft.tfMaskSkipped gopts.rank1 gopts.anyDimGt shape
+  let sos := if masked then [] else (runTx direction (direction.init p0) hist).1
+  (upds, sos)
+
+def tfRun (j : Json) : R Json := do
+  let shape ← getNats j "shape"
+  let so ← field j "so"
+  let gopts ← getGraft j
+  let mom ← getMom j
+  let lr ← getLr j
+  let steps ← getSteps j
+  let n := prod shape
+  if steps.any fun s => s.g.length ≠ n then throw "gradient length does not match the shape"
+  let mergeDims ← getNat so "merge"
+  let kind ← getStr so "kind"
+  let (res, bs) ← match kind with
+    | "shampoo" => do
+      let bs ← getNat so "block"
+      let sf ← getNat so "sf"
+      let pf ← getNat so "pf"
+      let decay ← getF so "decay"
+      let cut ← getF so "cut"
+      if bs < 2 ∨ sf = 0 ∨ pf = 0 then throw "invalid shampoo options"
+      let dir := secondOrderTx (P := List Float) mergeDims bs shape fun ps => shampooTx eighK hpK cut decay bs sf pf ps
+      pure (runWith dir gopts mom lr shape steps, bs)
+    | "sketchy" => do
+      let rank ← getNat so "rank"
+      let freq ← getNat so "freq"
+      let eps ← getF so "eps"
+      let rel ← getBool so "rel"
+      let decay ← getF so "decay"
+      if rank = 0 ∨ freq = 0 then throw "invalid sketchy options"
+      let dir := secondOrderTx (P := List Float) mergeDims 0 shape fun ps =>
+        sketchyTx svdK Float.sqrt pwK eps rel decay rank freq ps
+      pure (runWith dir gopts mom lr shape steps, 0)
+    | s => throw s!"unknown second-order kind {s}"
+  let s := deriveShapes mergeDims bs shape
+  pure (obj [("upd", listToJson fsJson res.1), ("so", listToJson fsJson res.2),
+    ("masked", Json.bool (gopts.type != .none && Graft.tfMaskSkipped gopts.rank1 gopts.anyDimGt shape)),
+    ("merged", natsToJson s.merged), ("padded", natsToJson s.padded),
+    ("exponent", toJson (shampooExponent s.padded))])
+
+def shapesOp (j : Json) : R Json := do
+  let shape ← getNats j "shape"
+  let mergeDims ← getNat j "merge"
+  let bs ← getNat j "block"
+  let s := deriveShapes mergeDims bs shape
+  let m := blocksMetadata (if bs = 0 then 1 else bs) s.padded
+  pure (obj [("merged", natsToJson s.merged), ("padded", natsToJson s.padded),
+    ("masked", Json.bool (Graft.tfMaskSkipped (← getBool j "rank1") (← getNat j "dim_gt") shape)),
+    ("block_sizes", natsToJson m.blockSizes), ("num_blocks", toJson m.numBlocks),
+    ("blocks_axis", toJson m.blocksAxis), ("exponent", toJson (shampooExponent s.padded))])
+
+def eighOp (j : Json) : R Json := do
+  let n ← getNat j "n"
+  let C := (← getFs j "C").toArray
+  if C.size ≠ n * n then throw "C must have n*n entries"
+  let p ← getNat j "p"
+  let cut ← getF j "cut"
+  let r := jacobiEigh n C
+  let e := eighK n (arrToMat n C)
+  let root := matToArr (rootOfEigh (hpK p) cut e)
+  pure (obj [("w", fsJson r.1.toList), ("V", fsJson r.2.toList), ("resid", floatToJson (eighResidual n C r.1 r.2)),
+    ("root", fsJson root.toList),
+    ("kept", listToJson (fun a => Json.bool (kept cut e.w a)) (List.finRange n))])
+
+/-! ### the first-order chain at exact rationals -/
+
+def getRatsL (j : Json) (key : String) : R (List Rat) := do asListOf asRat (← field j key)
+
+def momRun (j : Json) : R Json := do
+  let m ← field j "mom"
+  let mom : MomOpts Rat := { ema := ← getBool m "ema", nesterov := ← getBool m "nesterov", decay := ← getRat m "decay",
+                             wd := ← getRat m "wd", after := ← getBool m "after" }
+  let l ← field j "lr"
+  let lr : LR Rat ← match (← getStr l "kind") with
+    | "const" => pure (LR.const (← getRat l "v"))
+    | _ => do
+      let tb := (← getRatsL l "table").toArray
+      pure (LR.sched fun n => tb.getD n 0)
+  let steps ← (← asList (← field j "steps")).mapM fun s => do
+    pure ((← getRatsL s "u"), (← getRatsL s "x"))
+  let tx := chain2 (momentumTx mom) (lrTx lr)
+  let p0 := match steps with | s :: _ => s.2 | [] => []
+  let st0 := tx.init p0
+  let out := runTx tx st0 steps
+  pure (obj [("upd", listToJson (listToJson ratToJson) out.1),
+    ("state_len", toJson out.2.1.length), ("state0_len", toJson st0.1.length),
+    ("spec_state_len", toJson (momState mom ([] : List Rat)).length)])
+
+def ops : List Op := [
+  ("tf_run", tfRun),
+  ("shapes", shapesOp),
+  ("eigh", eighOp),
+  ("mom_run", momRun)
+]
 
 end PrecondVerif.Drv.C15
